@@ -156,3 +156,5 @@ package packetio
 //@ property C06: NewBuffer, Buffer.grow, Buffer.Write, Buffer.Read, Buffer.Close, Buffer.size, Buffer.available
 //@ property C10: NewBuffer, Buffer.Read, Buffer.SetReadDeadline
 //@ property C07: NewBuffer, Buffer.size, Buffer.available, Buffer.grow, Buffer.Write, Buffer.Read, Buffer.Count, Buffer.Size, Buffer.SetLimitCount, Buffer.SetLimitSize, Buffer.Close
+// a listener connection hands out the datagrams through its packet buffer
+//@ property C11: NewBuffer, Buffer.grow, Buffer.Write, Buffer.Read, Buffer.size, Buffer.available
